@@ -136,6 +136,14 @@ def _worker(args):
 
 def _init_worker():
     signal.signal(signal.SIGINT, signal.SIG_IGN)
+    # a monitored call that tries to allocate gigabytes (e.g. a bound mis-scaled by 10^9) must fail with MemoryError in the
+    # worker - and be judged like any other exception - instead of getting the worker killed and the pool stuck
+    try:
+        import resource
+        lim = int(os.environ.get('VERIF_WORKER_MEM_GB', '5')) * 2 ** 30
+        resource.setrlimit(resource.RLIMIT_AS, (lim, lim))
+    except Exception:
+        pass
 
 
 def run(check_id, tier, seed):
@@ -162,7 +170,18 @@ def run(check_id, tier, seed):
     ctx = multiprocessing.get_context('fork')
     pool = ctx.Pool(nproc, initializer=_init_worker)
     try:
-        for d in pool.imap_unordered(_worker, tasks):
+        it = pool.imap_unordered(_worker, tasks)
+        stall = int(os.environ.get('VERIF_STALL_S', '1500'))
+        while True:
+            try:
+                d = it.next(timeout=stall)
+            except StopIteration:
+                break
+            except multiprocessing.TimeoutError:
+                # a worker was lost (killed) or a shard hangs: never wait for ever
+                caps.append('harness error: no shard finished within %d s (%d of %d done) - a worker died or hangs' % (stall, len(digests), len(tasks)))
+                flags['harness_error'] += 1
+                break
             for k in agg:
                 agg[k] += d[k]
             violations.extend((d['idx'], c) for c in d['violations'])
